@@ -1,23 +1,299 @@
-(* C08 — property theorems only (the sort library is being extended in Proofs/SortProofs.v). *)
-From Coq Require Import List String Bool Arith ZArith Lia.
-From Annet Require Import Base.Str Base.Tree Model.Order Model.Patch.
+(* C08 -- ordering follows the ordering rulebook and only permutes lines.
+   Property theorems only; proofs are in Proofs/SortProofs.v (generic stable sort) and
+   Proofs/OrderProofs.v.  Everything is stated for an arbitrary row matcher [rmatch], regex
+   source [rsrc], negation of a pattern [rrev], exit word and negation word: the theorems do
+   not depend on the pattern language.  Model: Model/Order.v (get_order, order_config),
+   Model/Patch.v (make_patch); references: Spec/P_C08.v (sort_rec, all_paths, sorted_ok,
+   rank_pair_ok, make_patch_u = make_patch without PatchTree.sort). *)
+From Coq Require Import List String Ascii Bool Arith ZArith Lia Permutation Sorted.
+From Annet Require Import Base.Str Base.Tree Model.Pattern Model.Rulebook Model.Diff Model.Order Model.Patch
+     Model.Blocks Model.Pipeline Spec.PipelineCase Proofs.SortProofs Spec.P_C08 Proofs.OrderProofs.
 Import ListNotations.
-Open Scope string_scope.
+Open Scope list_scope.
 
-Lemma string_compare_refl s : String.compare s s = Eq.
+(* ================= the sort ================= *)
+
+(* Python compares the key tuples lexicographically; both comparisons are total preorders *)
+Theorem C08_keys_total_preorder :
+  (forall a b, skey_leb a b = true \/ skey_leb b a = true) /\
+  (forall a b c, skey_leb a b = true -> skey_leb b c = true -> skey_leb a c = true) /\
+  (forall a b, cfg_key_leb a b = true \/ cfg_key_leb b a = true) /\
+  (forall a b c, cfg_key_leb a b = true -> cfg_key_leb b c = true -> cfg_key_leb a c = true).
 Proof.
-  induction s as [|c s IH]; cbn; [reflexivity|].
-  unfold Ascii.compare. rewrite N.compare_refl. exact IH.
+  exact (conj skey_leb_total (conj skey_leb_trans (conj cfg_key_leb_total cfg_key_leb_trans))).
 Qed.
+Print Assumptions C08_keys_total_preorder.
+
+(* list.sort / sorted are only assumed to be *a* stable sort: any sorted permutation that
+   keeps equal keys in input order is the model's insertion sort *)
+Theorem C08_stable_sort_unique (l l' : list item) :
+  Permutation l' l ->
+  StronglySorted (fun a b => ileb a b = true) l' ->
+  (forall x, filter (eqv ileb x) l' = filter (eqv ileb x) l) ->
+  l' = sort_items l.
+Proof. exact (sort_stable_unique ileb ileb_total ileb_trans l l'). Qed.
+Print Assumptions C08_stable_sort_unique.
+
+(* ================= patches ================= *)
+
+(* make_patch = recursive stable sort of the unsorted patch; hence at every level the items
+   are a permutation of the unsorted items (children sorted in place, under their own
+   parent) and the multiset of root-to-command paths is unchanged *)
+Theorem C08_patch_perm rmatch rsrc rrev block_exit rreverse p ordering u :
+  make_patch_u rmatch rsrc rrev block_exit rreverse p ordering = POk u ->
+  exists s, make_patch rmatch rsrc rrev block_exit rreverse p ordering = POk s /\
+            s = sort_rec u /\
+            (forall pre, Permutation (all_paths pre s) (all_paths pre u)) /\
+            Permutation (pitems s) (map srt_item (pitems u)).
+Proof. exact (patch_perm_model rmatch rsrc rrev block_exit rreverse p ordering u). Qed.
+Print Assumptions C08_patch_perm.
+
+Theorem C08_patch_error_iff rmatch rsrc rrev block_exit rreverse p ordering :
+  make_patch rmatch rsrc rrev block_exit rreverse p ordering = PErr <->
+  make_patch_u rmatch rsrc rrev block_exit rreverse p ordering = PErr.
+Proof. exact (patch_error_model rmatch rsrc rrev block_exit rreverse p ordering). Qed.
+Print Assumptions C08_patch_error_iff.
+
+(* every level of every patch is sorted by its keys *)
+Theorem C08_patch_sorted rmatch rsrc rrev block_exit rreverse p ordering s :
+  make_patch rmatch rsrc rrev block_exit rreverse p ordering = POk s -> sorted_ok s = true.
+Proof. exact (patch_sorted_model rmatch rsrc rrev block_exit rreverse p ordering s). Qed.
+Print Assumptions C08_patch_sorted.
+
+(* the three patch clauses of P_C08, on the model's own outputs *)
+Theorem C08_patch_clauses rmatch rsrc rrev block_exit rreverse p ordering s u :
+  make_patch rmatch rsrc rrev block_exit rreverse p ordering = POk s ->
+  make_patch_u rmatch rsrc rrev block_exit rreverse p ordering = POk u ->
+  sorted_ok s && is_stable_sort_of s u && same_multiset (all_paths [] s) (all_paths [] u) = true.
+Proof. exact (patch_clauses_model rmatch rsrc rrev block_exit rreverse p ordering s u). Qed.
+Print Assumptions C08_patch_clauses.
+
+(* the keys are get_order's: (+order | -order, raw_rule, order_direct) of a command of the level *)
+Theorem C08_patch_keys rmatch rsrc rrev block_exit rreverse p ordering items :
+  make_patch rmatch rsrc rrev block_exit rreverse p ordering = POk (PT items) ->
+  Forall (key_ok rmatch rsrc rrev block_exit ordering) items.
+Proof. exact (make_patch_keys rmatch rsrc rrev block_exit rreverse p ordering items). Qed.
+Print Assumptions C08_patch_keys.
+
+(* ================= rank ================= *)
+
+(* sibling rules with pairwise disjoint languages: get_order returns the index of the one
+   rule that mentions the row; the direction is kept, except that an %order_reverse rule
+   turns a removal it matches directly into a command pinned at +index (and ignores
+   everything else) *)
+Theorem C08_rank rmatch rsrc rrev block_exit ordering sc i r row cd :
+  disjoint_rules rmatch rrev ordering sc -> is_exit block_exit row = false ->
+  nth_error ordering i = Some r -> in_scope r sc = true -> hits rmatch rrev r row = true ->
+  rank_of rmatch rsrc rrev block_exit ordering row cd sc =
+  if o_rev r
+  then (if negb cd && matches rmatch (o_pat r) row then (ZFin (Z.of_nat i), true) else (ZFin 0, cd))
+  else (ZFin (Z.of_nat i), cd).
+Proof. exact (rank_disjoint rmatch rsrc rrev block_exit ordering sc i r row cd). Qed.
+Print Assumptions C08_rank.
+
+Example C08_rank_nonvacuous :
+  disjoint_rules toy_match toy_rev toy_rules None /\
+  rank_of toy_match (fun s => s) toy_rev "exit" toy_rules "no b" false None = (ZFin 1, false) /\
+  patch_key "b" (rank_of toy_match (fun s => s) toy_rev "exit" toy_rules "no b" false None)
+    = (ZFin (-1), "b"%string, false) /\
+  patch_key "b" (rank_of toy_match (fun s => s) toy_rev "exit" toy_rules "b" true None)
+    = (ZFin 1, "b"%string, true).
+Proof. split; [exact toy_disjoint | vm_compute; auto]. Qed.
+
+Theorem C08_rank_unmentioned rmatch rsrc rrev block_exit ordering row cd sc :
+  Forall (fun r => silent rmatch rrev row sc r = true) ordering -> is_exit block_exit row = false ->
+  rank_of rmatch rsrc rrev block_exit ordering row cd sc = (ZFin 0, cd).
+Proof. exact (rank_unmentioned rmatch rsrc rrev block_exit ordering row cd sc). Qed.
+Print Assumptions C08_rank_unmentioned.
+
+(* the vendor's block-exit word gets +inf *)
+Theorem C08_rank_exit rmatch rsrc rrev block_exit ordering row cd sc :
+  is_exit block_exit row = true ->
+  Forall (fun r => silent rmatch rrev row sc r = true) ordering ->
+  existsb (fun r => in_scope r sc) ordering = true ->
+  rank_of rmatch rsrc rrev block_exit ordering row cd sc = (ZInf, true).
+Proof. exact (rank_exit rmatch rsrc rrev block_exit ordering row cd sc). Qed.
+Print Assumptions C08_rank_exit.
+
+Example C08_rank_exit_nonvacuous :
+  rank_of toy_match (fun s => s) toy_rev "exit" toy_rules "exit" true None = (ZInf, true).
+Proof. vm_compute. reflexivity. Qed.
+
+(* what the signed keys mean for the order: earlier rule first; removals mirrored and, from
+   the second rule on, before every command; exit word last *)
+Theorem C08_key_order (r1 r2 : string) (d1 d2 : bool) (i j : Z) :
+  (0 <= i)%Z -> (0 <= j)%Z ->
+  ((i < j)%Z -> key_lt (patch_key r1 (ZFin i, true)) (patch_key r2 (ZFin j, true))) /\
+  ((i < j)%Z -> key_lt (patch_key r1 (ZFin j, false)) (patch_key r2 (ZFin i, false))) /\
+  ((1 <= i)%Z -> key_lt (patch_key r1 (ZFin i, false)) (patch_key r2 (ZFin j, true))) /\
+  key_lt (patch_key r1 (ZFin i, d1)) (patch_key r2 (ZInf, d2)).
+Proof. exact (key_order_facts r1 r2 d1 d2 i j). Qed.
+Print Assumptions C08_key_order.
+
+(* forall sibling commands c1 c2 of a patch: rank c1 < rank c2 => c1 is not behind c2 *)
+Theorem C08_no_inversion rmatch rsrc rrev block_exit rreverse p ordering items l1 a l2 b l3 :
+  make_patch rmatch rsrc rrev block_exit rreverse p ordering = POk (PT items) ->
+  items = l1 ++ a :: l2 ++ b :: l3 ->
+  znum_compare (knum b) (knum a) <> Lt.
+Proof. exact (patch_no_inversion rmatch rsrc rrev block_exit rreverse p ordering items l1 a l2 b l3). Qed.
+Print Assumptions C08_no_inversion.
+
+(* the rank clause of P_C08 (references rank_pair_ok / ref_children) holds at every depth of
+   every patch the model builds: each command carries the rank the reference allows, under
+   the rules its ancestors hand down *)
+Theorem C08_rank_ok rmatch rsrc rrev block_exit rreverse p ordering s :
+  make_patch rmatch rsrc rrev block_exit rreverse p ordering = POk s ->
+  rank_ok_rec rmatch rrev block_exit ordering s = true.
+Proof. exact (rank_ok_rec_model rmatch rsrc rrev block_exit rreverse p ordering s). Qed.
+Print Assumptions C08_rank_ok.
+
+(* the reference functions of P_C08 agree with get_order wherever they are defined *)
+Theorem C08_ref_rank rmatch rsrc rrev block_exit ordering row cd sc x :
+  ref_rank rmatch rrev block_exit sc ordering row cd = Some x ->
+  rank_of rmatch rsrc rrev block_exit ordering row cd sc = x.
+Proof. exact (ref_rank_model rmatch rsrc rrev block_exit ordering row cd sc x). Qed.
+Print Assumptions C08_ref_rank.
+
+Theorem C08_ref_children rmatch rsrc rrev block_exit ordering row cd sc rb :
+  ref_children rmatch rrev block_exit sc ordering row = Some rb ->
+  snd (get_order rmatch rsrc rrev block_exit ordering row cd sc) = rb.
+Proof. exact (ref_children_model rmatch rsrc rrev block_exit ordering row cd sc rb). Qed.
+Print Assumptions C08_ref_children.
 
 (* For one rule the removal sorts before (or together with, then stably before) the
    re-creation: key (-order, rule, false) <= key (order, rule, true). *)
 Theorem C08_undo_before_redo :
   forall (o : Z) (raw : string), (0 <= o)%Z ->
     skey_leb (ZFin (- o), raw, false) (ZFin o, raw, true) = true.
-Proof.
-  intros o raw Ho. unfold skey_leb, znum_compare.
-  destruct (Z.compare_spec (- o) o) as [E|L|G]; [|reflexivity|lia].
-  rewrite string_compare_refl. reflexivity.
-Qed.
+Proof. exact undo_before_redo. Qed.
 Print Assumptions C08_undo_before_redo.
+
+(* a block's children are ordered by the %global rules of the level and the matching
+   rule's own children, in rulebook order *)
+Theorem C08_children_rules_handed_down rmatch rsrc rrev block_exit pre r post row cd sc :
+  Forall (fun r => silent rmatch rrev row sc r = true) pre ->
+  Forall (fun r => silent rmatch rrev row sc r = true) post ->
+  in_scope r sc = true -> hits rmatch rrev r row = true -> is_exit block_exit row = false ->
+  o_rev r = false ->
+  snd (get_order rmatch rsrc rrev block_exit (pre ++ r :: post) row cd sc) =
+  odict_of (globals_of sc pre ++ (if o_glob r then [r] else []) ++ o_kids r ++ globals_of sc post) [].
+Proof. exact (children_unique_hit rmatch rsrc rrev block_exit pre r post row cd sc). Qed.
+Print Assumptions C08_children_rules_handed_down.
+
+(* ================= order_config ================= *)
+
+(* multiset of rows preserved at every depth (paths carry the parents) *)
+Theorem C08_order_config_perm rmatch rsrc rrev block_exit reverse_prefix ordering pre f :
+  Permutation (paths pre (order_config rmatch rsrc rrev block_exit reverse_prefix ordering f)) (paths pre f).
+Proof. exact (oc_paths_perm rmatch rsrc rrev block_exit reverse_prefix ordering pre f). Qed.
+Print Assumptions C08_order_config_perm.
+
+Theorem C08_order_config_perm_level rmatch rsrc rrev block_exit reverse_prefix ordering f :
+  Permutation (order_config rmatch rsrc rrev block_exit reverse_prefix ordering f)
+              (map (fun rc => (fst rc,
+                               order_config_t rmatch rsrc rrev block_exit reverse_prefix
+                                              (row_rb rmatch rsrc rrev block_exit reverse_prefix ordering (fst rc))
+                                              (snd rc))) f).
+Proof. exact (oc_perm_level rmatch rsrc rrev block_exit reverse_prefix ordering f). Qed.
+Print Assumptions C08_order_config_perm_level.
+
+Theorem C08_order_config_sorted rmatch rsrc rrev block_exit reverse_prefix ordering f :
+  StronglySorted (fun a b => cfg_key_leb a b = true)
+    (map (row_key rmatch rsrc rrev block_exit reverse_prefix ordering)
+         (map fst (order_config rmatch rsrc rrev block_exit reverse_prefix ordering f))).
+Proof. exact (oc_sorted rmatch rsrc rrev block_exit reverse_prefix ordering f). Qed.
+Print Assumptions C08_order_config_sorted.
+
+(* at every depth, the rows whose key the reference determines stand in reference order:
+   earlier rule first, negated rows mirrored and first, exit word last, children under the
+   rules handed down *)
+Theorem C08_order_config_rank rmatch rsrc rrev block_exit reverse_prefix t ordering :
+  cfg_rank_sorted_t rmatch rrev block_exit reverse_prefix ordering
+    (order_config_t rmatch rsrc rrev block_exit reverse_prefix ordering t) = true.
+Proof. exact (cfg_rank_sorted_model rmatch rsrc rrev block_exit reverse_prefix t ordering). Qed.
+Print Assumptions C08_order_config_rank.
+
+(* ordering an ordered configuration changes nothing, at every depth *)
+Theorem C08_order_config_idem rmatch rsrc rrev block_exit reverse_prefix ordering f :
+  order_config rmatch rsrc rrev block_exit reverse_prefix ordering
+    (order_config rmatch rsrc rrev block_exit reverse_prefix ordering f) =
+  order_config rmatch rsrc rrev block_exit reverse_prefix ordering f.
+Proof. exact (oc_idem rmatch rsrc rrev block_exit reverse_prefix ordering f). Qed.
+Print Assumptions C08_order_config_idem.
+
+(* the relative order of the rows selected by any predicate on the row text does not depend
+   on the other rows *)
+Theorem C08_unrelated_rows_irrelevant rmatch rsrc rrev block_exit reverse_prefix ordering (sel : string -> bool) f :
+  order_config rmatch rsrc rrev block_exit reverse_prefix ordering (filter (fun rc => sel (fst rc)) f) =
+  filter (fun rc => sel (fst rc)) (order_config rmatch rsrc rrev block_exit reverse_prefix ordering f).
+Proof. exact (oc_filter_commute rmatch rsrc rrev block_exit reverse_prefix ordering sel f). Qed.
+Print Assumptions C08_unrelated_rows_irrelevant.
+
+(* the same for the items of a patch level, positionally: deleting items from the unsorted
+   level deletes exactly them from the sorted level *)
+Theorem C08_unrelated_items_irrelevant (l l' : list item) :
+  sublist l l' -> sublist (sort_items l) (sort_items l').
+Proof. exact (sort_sublist ileb ileb_total ileb_trans l l'). Qed.
+Print Assumptions C08_unrelated_items_irrelevant.
+
+(* ... but across whole configurations the sentence is refuted (faithful model and real
+   code, known/C08.json): commands whose keys tie keep the diff's order, which depends on
+   absolute row positions; old = [foo 1; vlan 7 a], new = [bar 1; vlan 9; vlan 7 b]:
+   removing the unrelated old row "foo 1" turns [...; vlan 9; vlan 7 b] into [...; vlan 7 b; vlan 9] *)
+Definition C08_unrelated_row_statement : Prop :=
+  forall v rs ordering old new r,
+    unrelated_top_row rs old new r = true -> meta_order_kept v rs ordering old new r.
+Theorem C08_unrelated_row_refuted :
+  exists v rs ordering old new r,
+    unrelated_top_row rs old new r = true /\ ~ meta_order_kept v rs ordering old new r.
+Proof. exact unrelated_row_refuted. Qed.
+Print Assumptions C08_unrelated_row_refuted.
+
+(* rows no rule mentions: the property's sentence, as stated ... *)
+Definition C08_unmentioned_stable_statement : Prop :=
+  forall v ordering f, unmentioned_stable v ordering f (p_order_config v ordering f) = true.
+
+(* ... is refuted by the faithful model (and by the real Orderer.order_config, see
+   known/C08.json): cisco, no rules, rows [a; no b] come back as [no b; a] *)
+Theorem C08_unmentioned_stable_refuted :
+  exists v ordering f, unmentioned_stable v ordering f (p_order_config v ordering f) = false.
+Proof. exact p_unmentioned_stable_refuted. Qed.
+Print Assumptions C08_unmentioned_stable_refuted.
+
+(* what does hold, unconditionally: unmentioned rows of one kind (commands / rows that start
+   with the negation word) keep their relative order ... *)
+Theorem C08_unmentioned_stable_partial rmatch rsrc rrev block_exit reverse_prefix ordering (b : bool) f :
+  let sel := fun rc : string * tree =>
+               negb (mentioned_g rmatch rrev block_exit ordering (fst rc)) &&
+               Bool.eqb (row_direct reverse_prefix (fst rc)) b in
+  map fst (filter sel (order_config rmatch rsrc rrev block_exit reverse_prefix ordering f)) =
+  map fst (filter sel f).
+Proof. exact (oc_unmentioned_stable_by_kind rmatch rsrc rrev block_exit reverse_prefix ordering b f). Qed.
+Print Assumptions C08_unmentioned_stable_partial.
+
+(* ... and the full sentence whenever no unmentioned row starts with the negation word *)
+Theorem C08_unmentioned_stable v ordering f :
+  has_negated_unmentioned v ordering f = false ->
+  unmentioned_stable v ordering f (p_order_config v ordering f) = true.
+Proof. exact (p_unmentioned_stable v ordering f). Qed.
+Print Assumptions C08_unmentioned_stable.
+
+Example C08_unmentioned_stable_nonvacuous :
+  has_negated_unmentioned refute_vendor [] [("b"%string, T []); ("a"%string, T [])] = false.
+Proof. vm_compute. reflexivity. Qed.
+
+(* clauses of P_C08 about order_config, on the model's own outputs (pipeline instance) *)
+Theorem C08_cfg_clauses v ordering f :
+  forest_eqb (p_order_config v ordering (p_order_config v ordering f)) (p_order_config v ordering f) = true /\
+  unmentioned_stable_kind v ordering f (p_order_config v ordering f) = true /\
+  cfg_rank_sorted v ordering (p_order_config v ordering f) = true.
+Proof.
+  exact (conj (p_order_config_idem_clause v ordering f)
+              (conj (p_unmentioned_stable_kind v ordering f) (p_cfg_rank_sorted v ordering f))).
+Qed.
+Print Assumptions C08_cfg_clauses.
+
+(* clause resort: PatchTree.sort as specified (sort_rec) applied to any tree *)
+Theorem C08_resort_clause u : sorted_ok (sort_rec u) && is_stable_sort_of (sort_rec u) u = true.
+Proof. exact (resort_clause u). Qed.
+Print Assumptions C08_resort_clause.
